@@ -145,6 +145,10 @@ pub struct Step {
     pub n_statements: usize,
     pub contains: Vec<String>,
     pub features: Vec<String>,
+    /// the generator evaluated this input on a clone of the session first (to learn how many VM
+    /// instructions it executes); a replay repeats that, so that it is the same execution even
+    /// if the system under test lets a clone influence its original
+    pub dry_run: bool,
 }
 
 impl Step {
@@ -169,6 +173,7 @@ impl Step {
             n_statements: gi.n_statements,
             contains: gi.contains.iter().map(|s| s.to_string()).collect(),
             features: gi.features.iter().map(|s| s.to_string()).collect(),
+            dry_run: false,
         }
     }
     pub fn to_json(&self) -> Value {
@@ -202,6 +207,9 @@ impl Step {
         }
         if !self.features.is_empty() {
             m.insert("features".into(), json!(self.features));
+        }
+        if self.dry_run {
+            m.insert("dry_run".into(), json!(true));
         }
         Value::Object(m)
     }
@@ -246,6 +254,7 @@ impl Step {
             n_statements: v["n_statements"].as_u64().unwrap_or(1) as usize,
             contains: strs("contains"),
             features: strs("features"),
+            dry_run: v["dry_run"].as_bool().unwrap_or(false),
         }
     }
 }
@@ -262,9 +271,18 @@ pub struct ReplaySource {
 }
 
 impl StepSource for ReplaySource {
-    fn next(&mut self, _a: &Sess, _imp: &SimImporter) -> Option<Step> {
+    fn next(&mut self, a: &Sess, importer: &SimImporter) -> Option<Step> {
         let s = self.steps.get(self.i).cloned();
         self.i += 1;
+        if let Some(step) = &s
+            && step.dry_run
+        {
+            for (n, src) in &step.set_modules {
+                importer.add_module(n, src);
+            }
+            importer.set_tag("dry");
+            let _ = a.dry_run_steps(&step.text);
+        }
         s
     }
     fn feedback(&mut self, _ok: bool) {}
@@ -290,6 +308,7 @@ impl StepSource for GenSource {
                 importer.add_module(n, src);
             }
             importer.set_tag("dry");
+            step.dry_run = true;
             let (steps, ok) = a.dry_run_steps(&step.text);
             if ok && steps > 0 {
                 let n = 1 + self.generator.rng.below(steps as usize) as u64;
@@ -1016,8 +1035,8 @@ impl Prop for C06 {
         let currency = run % 16 == 5;
         let fresh = run % 16 == 11;
         let light = rng.chance(0.5) && !currency;
-        // 1 run in 16 is also replayed (successful inputs only) in a fresh process
-        let procref = run % 16 == 3;
+        // 1 run in 8 is also replayed (successful inputs only) in a fresh process
+        let procref = run % 8 == 3;
         let opts = HistOpts { light, fresh, currency, procref };
         let real = w.real_modules(light);
         let mut cfg = Gen::swarm_cfg(&mut rng, faults, real);
